@@ -51,6 +51,7 @@ pub fn dispatch(id: &str, ctx: &Ctx) -> Option<i32> {
         "C19" => c19::run(ctx),
         "C20" => c20::run(ctx),
         "SELFTEST" => selftest::run(),
+        "CORPUS" => crate::fuzzapi::gen_corpus(),
         _ => return None,
     })
 }
